@@ -1201,6 +1201,11 @@ moqQUICAddress: :%d
 		for _, f := range []string{"PlaybackAddress", "APIAddress"} {
 			runHistory("pair", [][]string{{f, "*cleaner"}, {f, "*paths"}, {f, "*cleaner"}, {f, "*paths", "*users"}})
 		}
+		// every optional server switched OFF together with the pushes, the pushes alone while it is absent, ON together with
+		// the pushes (a push conditioned on another component's presence, a component built from a stale value on return)
+		for _, f := range vC13Flags {
+			runHistory("flagpair", [][]string{{f, "*paths", "*users"}, {"*paths", "*users"}, {f, "*paths", "*users"}})
+		}
 		out.extra["pairs"] = pairDone
 		out.extra["pairs_skipped"] = pairSkipped
 	}
